@@ -260,6 +260,13 @@ def run(ctx):
         for c in pick:
             seeded.add((enc, c))
         entries = T.gen_entries(rng, enc, n_distinct=rng.randint(2, 9), specials=pick)
+        if enc == "utf-8" and fam % 2 == 0:
+            # U+FEFF is a character the filter accepts: a password that begins / ends with it or holds it inside is the same
+            # password in the plain, the $HEX[] and the count-prefixed form, on the first line of the file and anywhere else
+            fe = [("\ufeffsecret12", 3), ("pa\ufeffss1", 1), ("end9\ufeff", 2)]
+            rng.shuffle(fe)
+            entries = (fe[:1] + entries + fe[1:]) if fam % 4 == 0 else (entries[:1] + fe + entries[1:])
+            dist["lists_with_feff_passwords"] = dist.get("lists_with_feff_passwords", 0) + 1
         junk = gen_junk(rng, enc, len(entries)) if rng.random() < 0.7 else []
         V = variants_of(rng, entries, enc, junk)
         extra_err = {}
@@ -301,6 +308,8 @@ def run(ctx):
         spec = T.special_chars_for(enc, rng)
         pick = rng.sample(spec, 2) if with_spec else []
         entries = T.gen_entries(rng, enc, n_distinct=rng.randint(4, 12), specials=pick)
+        if enc == "utf-8" and tri % 8 == 0:
+            entries = entries[:2] + [("\ufeffsecret12", 2), ("x\ufeffy12", 1)] + entries[2:]
         if not entries:
             continue
         junk = gen_junk(rng, enc, len(entries)) if tri % 2 == 0 else []
